@@ -60,11 +60,14 @@ PARAMS = {
     '_dSIR_compact_effective_degree_': ['X', 't', 'N', 'tau', 'gamma'],
 }
 ORDER = list(PARAMS)
-# loops: function -> (kind, names called as functions)
+# loops: function -> (kind, parameters of the emitted definitions in a FIXED order with their types).
+# Every listed name is a parameter even when the current text does not use it (so dropping a term does
+# not change the signature the theorems and Model/Attack.v are written against); a free name that is
+# not listed is appended (sorted) -- the signature changes and the dependants stop compiling.
 LOOPS = {
-    'Attack_rate_discrete': 'scalar',
-    'Attack_rate_cts_time': 'scalar',
-    'EBCM_discrete': 'accum',
+    'Attack_rate_discrete': ('scalar', [('p', 'q'), ('phiR0', 'q'), ('phiS0', 'q'), ('psihatPrime', 'f'), ('psihat', 'f')]),
+    'Attack_rate_cts_time': ('scalar', [('gamma', 'q'), ('tau', 'q'), ('phiR0', 'q'), ('phiS0', 'q'), ('psihatPrime', 'f'), ('psihat', 'f')]),
+    'EBCM_discrete': ('accum', [('R0', 'q'), ('N', 'q'), ('psihat', 'f'), ('p', 'q'), ('phiR0', 'q'), ('phiS0', 'q'), ('psihatPrime', 'f')]),
 }
 
 COQTY = {'q': 'Q', 'v': 'vec', 'f': 'Q -> Q', 'n': 'nat'}
@@ -346,7 +349,19 @@ def called_names(node):
     return {n.func.id for n in ast.walk(node) if isinstance(n, ast.Call) and isinstance(n.func, ast.Name)}
 
 
-def translate_loop(fn, kind):
+def fixed_order(name, pref, order, fcalled):
+    """parameters: the preferred list first (always all of it), then unknown free names sorted"""
+    pnames = [p for p, _ in pref]
+    for p, ty in pref:
+        if p in order and ((ty == 'f') != (p in fcalled)):
+            raise Refuse('rhs2v: %s is used as a %s in %s but is declared %s' % (p, 'function' if p in fcalled else 'number', name, ty))
+    extra = sorted(p for p in order if p not in pnames)
+    env = {p: ty for p, ty in pref}
+    env.update({p: ('f' if p in fcalled else 'q') for p in extra})
+    return pnames + extra, env
+
+
+def translate_loop(fn, kind, pref=()):
     """kind 'scalar':   x = e0 ; for _ in range(number_its): x = e(x) ; return r(x)
        kind 'accum' :   acc_i = [e0_i] ... ; for time in range(a, b): acc_i.append(e_i) with reads acc_j[-1]
     Only the loop (initialisation of the loop-carried names, body, and for 'scalar' the
@@ -399,8 +414,7 @@ def translate_loop(fn, kind):
             for nm in free_names(e):
                 if nm != x and nm not in order:
                     order.append(nm)
-        qs = [p for p in order if p not in fcalled]
-        env = mk(qs, fcalled)
+        order, env = fixed_order(name, pref, order, fcalled)
         if x in free_names(inite):
             raise Refuse('rhs2v: initialisation refers to the loop variable in %s' % name)
         binders = ' '.join('(v_%s : %s)' % (p, COQTY[env[p]]) for p in order)
@@ -486,7 +500,7 @@ def translate_loop(fn, kind):
         if k == 'let':
             bound = bound | {a}
     order = [nm for nm in order if nm != loopvar]
-    env = mk([p for p in order if p not in fcalled], [p for p in order if p in fcalled])
+    order, env = fixed_order(name, pref, order, fcalled)
 
     class AccTr(Tr):
         def subscript(self, n):
@@ -610,10 +624,10 @@ def translate(repo):
         txt, sig = translate_rhs(fns[name], lines)
         sig['sha'] = hashlib.sha1(ast.get_source_segment(src, fns[name]).encode()).hexdigest()[:12]
         chunks.append(txt); sigs.append(sig)
-    for name, kind in LOOPS.items():
+    for name, (kind, pref) in LOOPS.items():
         if name not in fns:
             raise Refuse('rhs2v: function %s not found in analytic.py' % name)
-        txt, sig = translate_loop(fns[name], kind)
+        txt, sig = translate_loop(fns[name], kind, pref)
         sig['sha'] = hashlib.sha1(ast.get_source_segment(src, fns[name]).encode()).hexdigest()[:12]
         chunks.append(txt); lsigs.append(sig)
     # `shift` must be scipy.ndimage's
